@@ -18,7 +18,7 @@ func init() {
 	register(&Rule{ID: "VF-09", Title: "the verifier writes only a leader checkpoint's empty Extensions; foreign extensions are refused",
 		Props: []string{"C18"}, Floor: 2, Run: runVF09})
 	register(&Rule{ID: "ORD-24", Title: "verifier bookkeeping order: state and hand-off only after the inner store accepted the batch; first-index before reading; one report per received checkpoint; counters only after the inner store accepted the batch",
-		Props: []string{"C16", "C18", "C20"}, Floor: 4, Run: runORD24})
+		Props: []string{"C16", "C18", "C20", "C17"}, Floor: 4, Run: runORD24})
 	register(&Rule{ID: "ORD-25", Title: "appends never block on the reporter: non-blocking hand-off with the drop counted, callback never on the append path",
 		Props: []string{"C18"}, Floor: 3, Run: runORD25})
 }
